@@ -72,6 +72,9 @@ func evaluateAll(cmd *cobra.Command, args []string) (cmdError error) {
 		defer func() {
 			if cmdError == nil {
 				cmdError = writeInPlaceHandler.FinishWriteInPlace(completedSuccessfully)
+			} else {
+				// discard the temp file, keep the error
+				_ = writeInPlaceHandler.FinishWriteInPlace(false)
 			}
 		}()
 	}
